@@ -6,7 +6,7 @@ use samlang_checker::{
   type_::{GlobalSignature, Type},
   type_check_module, type_check_sources,
 };
-use samlang_errors::{CompileTimeError, ErrorSet};
+use samlang_errors::{CompileTimeError, ErrorDetail, ErrorSet};
 use samlang_heap::{Heap, ModuleReference};
 use std::{
   collections::{HashMap, HashSet},
@@ -67,7 +67,20 @@ impl ServerState {
   /// - Global context updated
   /// - Dependency graph updated
   /// - recheck_set is the conservative estimate of moduled need to recheck
+  /// - `errors` no longer has entries for the modules that were just re-parsed or removed
   fn recheck(&mut self, mut error_set: ErrorSet, recheck_set: &HashSet<ModuleReference>) {
+    // Syntax errors only come from parsing. A module that is rechecked without being re-parsed
+    // keeps the ones it has; its entry is about to be overwritten with the new type errors.
+    for rechecked_module in recheck_set {
+      if let Some(existing_errors) = self.errors.get(rechecked_module) {
+        for e in existing_errors {
+          if let ErrorDetail::InvalidSyntax(reason) = &e.detail {
+            error_set.report_invalid_syntax_error(e.location, reason.clone());
+          }
+        }
+      }
+    }
+
     // Type Checking (parallel)
     let parsed_modules = &self.parsed_modules;
     let global_cx = &self.global_cx;
@@ -128,7 +141,10 @@ impl ServerState {
   pub fn update(&mut self, updates: Vec<(ModuleReference, String)>) {
     let mut error_set = ErrorSet::new();
     let initial_update_set = updates.iter().map(|(m, _)| *m).collect::<HashSet<_>>();
+    // Only the last text of a module in the batch counts.
+    let updates = updates.into_iter().collect::<HashMap<_, _>>();
     for (mod_ref, source_code) in updates {
+      self.errors.remove(&mod_ref);
       let parsed = samlang_parser::parse_source_module_from_text(
         &source_code,
         mod_ref,
@@ -145,19 +161,26 @@ impl ServerState {
   }
 
   pub fn rename_module(&mut self, renames: Vec<(ModuleReference, ModuleReference)>) {
-    let mut error_set = ErrorSet::new();
+    // Syntax errors of the moved texts, by the name the text currently has:
+    // a later rename in the same batch may move or overwrite the text again.
+    let mut syntax_errors = HashMap::<ModuleReference, ErrorSet>::new();
     let recheck_set = self
       .dep_graph
       .affected_set(renames.iter().flat_map(|(a, b)| vec![*a, *b].into_iter()).collect());
     for (old_mod_ref, new_mod_ref) in renames {
       if let Some(source) = self.string_sources.remove(&old_mod_ref) {
         self.parsed_modules.remove(&old_mod_ref).unwrap();
+        self.errors.remove(&old_mod_ref);
+        self.errors.remove(&new_mod_ref);
+        syntax_errors.remove(&old_mod_ref);
+        let mut module_syntax_errors = ErrorSet::new();
         let parsed = samlang_parser::parse_source_module_from_text(
           &source,
           new_mod_ref,
           &mut self.heap,
-          &mut error_set,
+          &mut module_syntax_errors,
         );
+        syntax_errors.insert(new_mod_ref, module_syntax_errors);
         self.string_sources.insert(new_mod_ref, source);
         // The signature mentions its own module reference (class types, locations),
         // so it has to be rebuilt under the new name instead of being moved.
@@ -168,6 +191,10 @@ impl ServerState {
       self.checked_modules.remove(&old_mod_ref);
     }
     self.dep_graph = DependencyGraph::new(&self.parsed_modules);
+    let mut error_set = ErrorSet::new();
+    for (_, module_syntax_errors) in syntax_errors {
+      error_set.merge(module_syntax_errors);
+    }
     self.recheck(error_set, &recheck_set);
   }
 
@@ -176,6 +203,7 @@ impl ServerState {
     for mod_ref in module_references {
       self.string_sources.remove(mod_ref);
       self.parsed_modules.remove(mod_ref);
+      self.errors.remove(mod_ref);
       self.checked_modules.remove(mod_ref);
       self.global_cx.remove(mod_ref);
     }
